@@ -269,9 +269,8 @@ def gen_periods(rng, tier):
     out.append(rng.choice([(2, 4), (120, 2), (1000, 1000000), (7200, 2), (3, 180), (10, 10)]))
     # boundaries of the overflow-threshold policy relative to seconds: 2147 * k <= max(int32)
     kb = (1 << 31) // THRESH                      # 1000225: largest k that passes for int32
-    cands = [(kb, 1), (kb + 1, 1), (1, kb), (1, kb + 1)]
-    cands = [c for c in cands if cheap(c[0]) and cheap(c[1])]
-    out += rng.sample(cands, min(2, len(cands)))
+    cands = rng.choice([[(kb, 1), (kb + 1, 1)], [(1, kb), (1, kb + 1)]])     # both sides of the threshold, always
+    out += [c for c in cands if cheap(c[0]) and cheap(c[1])]
     pool = [(1, 10), (1, 100), (10, 1), (1000, 1), (604800, 1), (1, 24), (1, 30), (1, 25), (1, 48000), (1, 44100),
             (1, 90000), (125, 3), (1, 1024), (1, 65536), (1024, 1), (3, 2), (2, 3), (7, 1), (1, 7), (31556952, 1),
             (1, 1 << 20), (1, 1 << 30), (1000000, 1), (1, 29970), (1001, 60000), (1, 705600000), (9, 5), (12, 25)]
@@ -521,6 +520,47 @@ template <class U> std::string ratio_to_seconds() {
            std::to_string(au::get_value<std::uint64_t>(au::denominator(r)));
 }
 
+// Guards: a conversion that the traits call unavailable is reported as "-" instead of breaking the build
+// (so that a defect in the conversion machinery still yields a concrete failing input).
+template <class To, class From, bool Ok = std::is_convertible<From, To>::value>
+struct ImplicitConv {
+    static constexpr bool ok = true;
+    static To go(const From& f) { To t = f; return t; }
+};
+template <class To, class From>
+struct ImplicitConv<To, From, false> {
+    static constexpr bool ok = false;
+    static To go(const From&) { return To{}; }
+};
+// as_chrono_duration(q) is only instantiated when q converts implicitly to the duration type it must return.
+template <class Q, class Expect, bool Ok = std::is_convertible<Q, Expect>::value>
+struct BackVia {
+    static constexpr bool ok = true;
+    using type = decltype(au::as_chrono_duration(std::declval<Q>()));
+    static typename Expect::rep count(const Q& q) { return au::as_chrono_duration(q).count(); }
+};
+template <class Q, class Expect>
+struct BackVia<Q, Expect, false> {
+    static constexpr bool ok = false;
+    using type = void;
+    static typename Expect::rep count(const Q&) { return typename Expect::rep{}; }
+};
+template <class B> struct BackFacts {
+    template <class R, class Dur> static std::string str() {
+        std::string s;
+        s += std::string(" back_rep_same=") + b01(std::is_same<typename B::rep, R>::value);
+        s += " back_period=" + std::to_string(B::period::num) + "/" + std::to_string(B::period::den);
+        s += std::string(" back_period_same=") + b01(std::is_same<typename B::period, typename Dur::period>::value);
+        s += std::string(" back_type_same=") + b01(std::is_same<B, Dur>::value);
+        return s;
+    }
+};
+template <> struct BackFacts<void> {
+    template <class R, class Dur> static std::string str() {
+        return " back_rep_same=0 back_period=-/- back_period_same=0 back_type_same=0";
+    }
+};
+
 // One duration type: rep R, period std::ratio<N, D> as written.
 template <class R, std::intmax_t N, std::intmax_t D>
 struct TI {
@@ -531,7 +571,8 @@ struct TI {
     using U = typename CQ::Unit;
     using GU = decltype(au::Seconds{} * (au::mag<PeriodW::num>() / au::mag<PeriodW::den>()));
     using GQ = au::Quantity<GU, R>;                                      // generic-unit quantity
-    using Back = decltype(au::as_chrono_duration(std::declval<CQ>()));
+    using ExpectBack = std::chrono::duration<R, typename Dur::period>;   // same rep, reduced period
+    using Back = typename BackVia<CQ, ExpectBack>::type;
 
     static std::string info() {
         std::string s;
@@ -539,14 +580,14 @@ struct TI {
         s += std::string(" named=") + unit_name<U>();
         s += " uratio=" + ratio_to_seconds<U>();
         s += std::string(" equiv_generic=") + b01(au::AreUnitsQuantityEquivalent<U, GU>::value);
-        s += std::string(" back_rep_same=") + b01(std::is_same<typename Back::rep, R>::value);
-        s += " back_period=" + std::to_string(Back::period::num) + "/" + std::to_string(Back::period::den);
-        s += std::string(" back_period_same=") + b01(std::is_same<typename Back::period, typename Dur::period>::value);
-        s += std::string(" back_type_same=") + b01(std::is_same<Back, Dur>::value);
+        s += BackFacts<Back>::template str<R, Dur>();
         s += std::string(" conv_d2q=") + b01(std::is_convertible<Dur, CQ>::value);
         s += std::string(" conv_q2d=") + b01(std::is_convertible<CQ, Dur>::value);
         s += std::string(" conv_d2g=") + b01(std::is_convertible<Dur, GQ>::value);
         s += std::string(" conv_g2d=") + b01(std::is_convertible<GQ, Dur>::value);
+        const Dur z = au::ZERO;                       // zero.hh: Zero converts to every duration
+        const CQ zq = au::ZERO;
+        s += " zero=" + Txt<R>::str(z.count()) + " zeroq_eq=" + b01(zq.in(U{}) == z.count());
         return s;
     }
     static std::string rt(const char* a) {
@@ -555,21 +596,24 @@ struct TI {
         const Dur d{v};
         const auto q = au::as_quantity(d);
         const R c1 = q.in(U{});
-        const CQ q2 = d;                              // implicit constructor from the corresponding type
+        const CQ q2 = ImplicitConv<CQ, Dur>::go(d);   // implicit constructor from the corresponding type
         const R c2 = q2.in(U{});
-        const auto back = au::as_chrono_duration(q);
-        const R c3 = back.count();
-        const Dur d2 = q;                             // conversion operator to the corresponding type
+        const R c3 = BackVia<CQ, ExpectBack>::count(q);
+        const Dur d2 = ImplicitConv<Dur, CQ>::go(q);  // conversion operator to the corresponding type
         const R c4 = d2.count();
-        const GQ gq = d;                              // generic spelling of the same unit
+        const GQ gq = ImplicitConv<GQ, Dur>::go(d);   // generic spelling of the same unit
         const R c5 = gq.in(GU{});
-        const Dur d3 = gq;
+        const Dur d3 = ImplicitConv<Dur, GQ>::go(gq);
         const R c6 = d3.count();
-        const R c7 = au::as_chrono_duration(gq).count();
+        const R c7 = BackVia<GQ, ExpectBack>::count(gq);
+        const bool avail[7] = {true, ImplicitConv<CQ, Dur>::ok, BackVia<CQ, ExpectBack>::ok, ImplicitConv<Dur, CQ>::ok,
+                               ImplicitConv<GQ, Dur>::ok, ImplicitConv<Dur, GQ>::ok, BackVia<GQ, ExpectBack>::ok};
         std::string s = "in=" + Txt<R>::str(v);
         const R cs[7] = {c1, c2, c3, c4, c5, c6, c7};
         const char* names[7] = {"asq", "ctor", "back", "conv", "gctor", "gconv", "gback"};
-        for (int i = 0; i < 7; ++i) s += std::string(" ") + names[i] + "=" + Txt<R>::str(cs[i]) + ":" + b01(same_bits(cs[i], v));
+        for (int i = 0; i < 7; ++i)
+            s += std::string(" ") + names[i] + "=" + (avail[i] ? Txt<R>::str(cs[i]) : std::string("unavailable")) + ":" +
+                 b01(avail[i] && same_bits(cs[i], v));
         s += " ub=" + std::to_string(g_ub - u0);
         return s;
     }
@@ -1141,6 +1185,8 @@ def check_type_info(t, m, r, cfg, violations, stats, samples):
     for kq in ("conv_d2q", "conv_q2d", "conv_d2g", "conv_g2d"):
         if r[kq] != "1":
             bad.append(f"{kq}: duration and its corresponding quantity are not implicitly interconvertible")
+    if parse_cxx(t["rep"], r["zero"]) != 0 or r["zeroq_eq"] != "1":
+        bad.append(f"ZERO converts to a duration with count {r['zero']} (or does not compare equal to the zero quantity)")
     for b in bad:
         violations.append({"what": b, "class": "oracle-type-" + b.split()[0], "rec": dict(base, observable="type", impl=r)})
     # correspondence with the model
